@@ -11,6 +11,7 @@ mod fam_table;
 mod fam_history;
 mod fam_engine;
 mod fam_ref;
+mod fam_tb;
 mod fam_pgn;
 mod fam_lichess;
 mod fam_uci;
